@@ -7,6 +7,7 @@
 #include "tokens.h"
 #include "tokens.c"                      /* REAL code: sentinels, build_mapping, ... */
 #include "basic_spec_tables.h"
+static unsigned short mon_cnt[4][257];   /* prefix counts of h_line (spec definition, h_fill_counts) */
 #include "basic_line_monitor.h"
 #include "basic_file_monitor.h"
 #include "basic_lines.h"                 /* the contracts */
@@ -33,6 +34,8 @@ static void h_fill_counts(void)
       mon_cnt[2][i + 1] = (unsigned short)(mon_cnt[2][i] + (h_line[i] == 0xE3));
       mon_cnt[3][i + 1] = (unsigned short)(mon_cnt[3][i] + (h_line[i] == 0xF5));
     }
+  mon_c0 = mon_cnt[0][mon_len]; mon_c1 = mon_cnt[1][mon_len];
+  mon_c2 = mon_cnt[2][mon_len]; mon_c3 = mon_cnt[3][mon_len];
 }
 
 static void h_setup_line(void)
@@ -90,4 +93,39 @@ void h_decode_line(void)
                        &SPEC_MAP, indent, mon_listo);
   VERIF_COVER(r && mon_len > 10, "r && mon_len > 10");
   VERIF_COVER(!r, "!r");
+}
+
+/* ---- L3: the program decoders over the ghost file, decode_line replaced by its contract ------- */
+static void h_setup_file(void)
+{
+  mon_on = 1;
+  fmon_on = 1;
+  g_len = nondet_size_t();           /* contents of g_file[] unconstrained */
+  g_pos = 0;
+  fmon_phase = FPH_START;
+  fmon_lines = nondet_ulong();
+  g_lines_listed = fmon_lines;
+  fmon_gk = nondet_size_t();
+  mon_map = &SPEC_MAP;
+  mon_listo = nondet_int();
+  mon_indent_run = 0;
+  g_diag = nondet_uint();
+  g_wfail = nondet_uint();
+  g_read_error_happened = 0;
+}
+
+void h_decode_be(void)
+{
+  h_setup_file();
+  bool r = decode_big_endian_program(&verif_file_obj, "name", &SPEC_MAP, mon_listo);
+  VERIF_COVER(r, "success");
+  VERIF_COVER(!r, "failure");
+}
+
+void h_decode_le(void)
+{
+  h_setup_file();
+  bool r = decode_little_endian_program(&verif_file_obj, "name", &SPEC_MAP, mon_listo);
+  VERIF_COVER(r, "success");
+  VERIF_COVER(!r, "failure");
 }
